@@ -2880,3 +2880,122 @@ def extended_info_counts(ctx, mir, stats):
         obs.append({"id": "ext_info:timezone-172", "ok": ok, "functions": [f.name], "where": f.name, "needs_native": False, "native": None if ok else EXT_INFO_NATIVE,
                     "detail": "clientTimeZone is 172 bytes (TS_TIME_ZONE_INFORMATION)" if ok else "clientTimeZone is not 172 bytes"})
     return obs
+
+
+# --------------------------------------------------------------------------
+# C18: ASN.1 wrappers (nla/asn1.rs): each impl writes and reads with the matching yasna primitive
+# --------------------------------------------------------------------------
+ASN1_NATIVE = {"test": "verif_replay_asn1_reference", "files": {"src/nla/asn1.rs": open(os.path.join(os.path.dirname(os.path.abspath(__file__)), "natives", "asn1_ref.rs")).read()}}
+ASN1_PAIRS = {"write_u32": "read_u32", "write_bytes": "read_bytes", "write_bool": "read_bool", "write_enum": "read_enum", "write_sequence": "read_sequence",
+              "write_sequence_of": "read_sequence_of", "write_tagged": "read_tagged", "write_tagged_implicit": "read_tagged_implicit"}
+ASN1_IMPLS = {"&u32": "write_u32", "&bool": "write_bool", "&i64": "write_enum", "&Vec<u8>": "write_bytes", "&SequenceOf": "write_sequence_of",
+              "&IndexMap<String, Box<dyn ASN1>>": "write_sequence", "&ExplicitTag<T>": "write_tagged", "&ImplicitTag<T>": "write_tagged_implicit"}
+
+
+def asn1_pairing(ctx, mir, stats):
+    """E2 over the MIR of every `impl ASN1` in nla/asn1.rs. The yasna primitives themselves are third-party and outside the claim; what is decided
+    is that the wrappers pair them correctly: the type's primitive on write, its inverse on read, no conversion of the value in between,
+    the same tag field on both sides, children visited in the same order, and the DER/BER entry points. A failed obligation is confirmed by
+    a native battery comparing the wrappers with an independent DER encoder and round-tripping boundary values."""
+    groups = {}
+    for f in mir:
+        m = re.match(r"^asn1::<impl at (src/nla/asn1\.rs:\d+):[^>]*>::(write_asn1|read_asn1)(::\{closure#\d+\})?$", f.name)
+        if m:
+            groups.setdefault(m.group(1), {}).setdefault(m.group(2), []).append(f)
+    obs = []
+    seen_types = set()
+
+    def prim_calls(fs, recv):
+        out = []
+        for f in fs:
+            for b in f.order:
+                blk = f.blocks[b]
+                if blk.cleanup or not blk.t or blk.t["kind"] != "call" or not fp_reachable(f, f.order[0], b, stats):
+                    continue
+                m = re.match(r"^%s::<[^>]*>::(\w+)" % recv, blk.t["func"])
+                if m:
+                    out.append((m.group(1), f, b))
+        return out
+    for loc, g in sorted(groups.items()):
+        if "write_asn1" not in g or "read_asn1" not in g:
+            continue
+        wmain = next(f for f in g["write_asn1"] if "{closure" not in f.name)
+        rmain = next(f for f in g["read_asn1"] if "{closure" not in f.name)
+        ty = wmain.locals.get("_1", "?")
+        seen_types.add(ty)
+        w = prim_calls(g["write_asn1"], "DERWriter")
+        r = prim_calls(g["read_asn1"], "BERReader")
+        wn, rn = sorted({x[0] for x in w}), sorted({x[0] for x in r})
+        exp_w = ASN1_IMPLS.get(ty)
+        ok = exp_w is not None and wn == [exp_w] and rn == [ASN1_PAIRS[exp_w]] and len(w) == 1 and len(r) == 1
+        obs.append({"id": "asn1:%s:primitive-pair" % ty, "ok": ok, "functions": [wmain.name, rmain.name], "where": rmain.name, "needs_native": True, "native": None if ok else ASN1_NATIVE,
+                    "detail": "%s is written with DERWriter::%s and read with BERReader::%s (one call each)" % (ty, exp_w, ASN1_PAIRS.get(exp_w)) if ok else
+                    "%s: written with %s, read with %s; expected %s / %s" % (ty, wn, rn, exp_w, ASN1_PAIRS.get(exp_w or "", "?"))})
+        # no conversion of the value between the wire primitive and the field
+        casts = []
+        for f in g["write_asn1"] + g["read_asn1"]:
+            for b in f.order:
+                if f.blocks[b].cleanup:
+                    continue
+                for s in f.blocks[b].stmts:
+                    if re.search(r" as (u8|u16|u32|u64|usize|i8|i16|i32|i64|isize|bool) \((IntToInt|Transmute|FloatToInt|IntToFloat)\)", s):
+                        casts.append((f.name.split("::")[-1], s.strip()))
+        arith = []
+        for f in g["write_asn1"] + g["read_asn1"]:
+            for b in f.order:
+                if f.blocks[b].cleanup:
+                    continue
+                for s in f.blocks[b].stmts:
+                    if re.search(r"= (Add|Sub|Mul|Shl|Shr|BitAnd|BitOr|BitXor|Not|Neg|AddWithOverflow|SubWithOverflow)\(", s) or re.search(r"= (Not|Neg)\(", s):
+                        arith.append((f.name.split("::")[-1], s.strip()))
+        ok = not casts and not arith
+        obs.append({"id": "asn1:%s:value-unconverted" % ty, "ok": ok, "functions": [wmain.name, rmain.name], "where": rmain.name, "needs_native": True, "native": None if ok else ASN1_NATIVE,
+                    "detail": "no integer conversion or arithmetic between the yasna primitive and the value in %s" % ty if ok else "%s converts the value on its way: %s" % (ty, (casts + arith)[:3])})
+        if exp_w in ("write_u32", "write_bool", "write_enum", "write_bytes") and len(r) == 1 and len(w) == 1:
+            # read: *self receives the primitive's Ok payload; write: the primitive receives *self
+            _n, rf, rb = r[0]
+            dest = rf.blocks[rb].t.get("dest")
+            stores = [s for b in rf.order if not rf.blocks[b].cleanup for s in rf.blocks[b].stmts if re.match(r"^\(\*_1\) = ", s)]
+            okr = len(stores) == 1 and re.match(r"^\(\*_1\) = (copy|move) (_\d+);$", stores[0]) is not None
+            if okr:
+                src = re.match(r"^\(\*_1\) = (?:copy|move) (_\d+);$", stores[0]).group(1)
+                defs = [s for b in rf.order for s in rf.blocks[b].stmts if re.match(r"^%s = " % re.escape(src), s)]
+                okr = len(defs) == 1 and re.search(r"as Continue\)\.0", defs[0]) is not None
+            _n, wf, wb = w[0]
+            args = wf.blocks[wb].t.get("args", [])
+            okw = False
+            if len(args) == 2:
+                a = re.sub(r"^(copy|move) ", "", args[1].strip())
+                defs = [s for b in wf.order for s in wf.blocks[b].stmts if re.match(r"^%s = " % re.escape(a), s)]
+                calls = [wf.blocks[b].t for b in wf.order if wf.blocks[b].t and wf.blocks[b].t["kind"] == "call" and wf.blocks[b].t.get("dest") == a]
+                okw = (len(defs) == 1 and re.search(r"= copy \(\*_1\);$", defs[0]) is not None) or \
+                      (len(calls) == 1 and re.search(r"Vec::<u8>::as_slice$|as Deref>::deref$", calls[0]["func"]) is not None and re.search(r"_1\b", " ".join(calls[0]["args"])) is not None)
+            ok = okr and okw
+            obs.append({"id": "asn1:%s:value-flow" % ty, "ok": ok, "functions": [wf.name, rf.name], "where": rf.name, "needs_native": True, "native": None if ok else ASN1_NATIVE,
+                        "detail": "%s: the primitive is given *self on write; *self receives the primitive's Ok payload on read" % ty if ok else "%s: value flow not direct (read store ok: %s, write argument ok: %s)" % (ty, okr, okw)})
+        if exp_w in ("write_tagged", "write_tagged_implicit") and len(r) == 1 and len(w) == 1:
+            def tag_src(f, b):
+                a = re.sub(r"^(copy|move) ", "", f.blocks[b].t["args"][1].strip())
+                d = [s for bb in f.order for s in f.blocks[bb].stmts if re.match(r"^%s = " % re.escape(a), s)]
+                return d[0].split(" = ", 1)[1].rstrip(";") if len(d) == 1 else None
+            tw, tr = tag_src(w[0][1], w[0][2]), tag_src(r[0][1], r[0][2])
+            ok = tw is not None and tw == tr and re.match(r"^copy \(\(\*_1\)\.0: yasna::Tag\)$", tw) is not None
+            obs.append({"id": "asn1:%s:same-tag" % ty, "ok": ok, "functions": [wmain.name, rmain.name], "where": rmain.name, "needs_native": True, "native": None if ok else ASN1_NATIVE,
+                        "detail": "%s: written and read under the same tag field (self.tag)" % ty if ok else "%s: tag operands differ or are not self.tag (write %s, read %s)" % (ty, tw, tr)})
+        if exp_w in ("write_sequence", "write_sequence_of"):
+            rev = [f.blocks[b].t["func"] for f in g["write_asn1"] + g["read_asn1"] for b in f.order
+                   if f.blocks[b].t and f.blocks[b].t["kind"] == "call" and re.search(r"::rev$|::rev::|Rev<|::skip$|::step_by$|::take$|sort|swap|reverse", f.blocks[b].t["func"])]
+            nxt_w = [1 for f in g["write_asn1"] for b in f.order if f.blocks[b].t and f.blocks[b].t["kind"] == "call" and re.search(r"DERWriterSeq::<[^>]*>::next$", f.blocks[b].t["func"])]
+            ok = not rev and len(nxt_w) == 1
+            obs.append({"id": "asn1:%s:child-order" % ty, "ok": ok, "functions": [wmain.name, rmain.name], "where": wmain.name, "needs_native": True, "native": None if ok else ASN1_NATIVE,
+                        "detail": "%s: children are visited by plain forward iteration on both sides, one DERWriterSeq::next per child" % ty if ok else "%s: iteration adaptors %s, next calls %d" % (ty, rev[:3], len(nxt_w))})
+    missing = sorted(set(ASN1_IMPLS) - seen_types)
+    obs.append({"id": "asn1:all-impls-found", "ok": not missing, "functions": [], "where": "src/nla/asn1.rs", "needs_native": True, "native": None if not missing else ASN1_NATIVE,
+                "detail": "all eight ASN1 implementations recognised" if not missing else "ASN1 implementations not recognised: %s" % missing})
+    for fn_re, callee in ((r"^to_der$", r"^(yasna::)?construct_der::<"), (r"^from_der$", r"^(yasna::)?parse_der::<"), (r"^from_ber$", r"^(yasna::)?parse_ber::<")):
+        f = find_fn(mir, fn_re)
+        hits = [f.blocks[b].t["func"] for b in f.order if f.blocks[b].t and f.blocks[b].t["kind"] == "call" and re.search(r"^(yasna::)?(construct|parse|try_construct)_\w*::<", f.blocks[b].t["func"])]
+        ok = len(hits) == 1 and re.search(callee, hits[0]) is not None
+        obs.append({"id": "asn1:%s:entry-point" % f.name, "ok": ok, "functions": [f.name], "where": f.name, "needs_native": True, "native": None if ok else ASN1_NATIVE,
+                    "detail": "%s goes through yasna::%s" % (f.name, re.search(r"(construct|parse)_\w+", callee).group(0)) if ok else "%s calls %s" % (f.name, hits)})
+    return obs
